@@ -13,13 +13,15 @@ import (
 )
 
 type item struct {
-	d      *V
-	a      px.Value // a fresh copy
-	b      px.Value // a second copy whose lazy caches have been forced
-	key    string   // px.ToKey(a)
-	keyOK  bool     // false: ToKey reported that the value cannot be a hash key
-	family string
-	text   string
+	d       *V
+	a       px.Value // a fresh copy
+	b       px.Value // a second copy whose lazy caches have been forced
+	key     string   // px.ToKey(a)
+	keyOK   bool     // false: ToKey reported that the value cannot be a hash key
+	keyB0   string   // px.ToKey(b) before the caches of b were forced
+	keyB0OK bool
+	family  string
+	text    string
 }
 
 // guarded runs f; a Go runtime fault (nil dereference, index out of range, failed type assertion)
@@ -178,6 +180,16 @@ func textTypeFamily() []*T {
 		"Timespan['0-00:00:01', '0-00:00:05']", "Timestamp['2000-01-01', '2001-01-01']", "Binary", "Default", "Undef", "Unit", "Scalar", "ScalarData", "Numeric", "CatalogEntry", "RichDataKey",
 		"Object[{name => 'C07::T1', attributes => {a => Integer}}]", "Object[{name => 'C07::T1', attributes => {a => Integer}}]", "Object[{name => 'C07::T2', attributes => {a => Integer}}]",
 		"Object[{name => 'C07::T1', attributes => {a => String}}]",
+		"Callable[String, Callable[Integer]]", "Callable[Callable[Integer]]", "Callable[Callable]", "Callable[[0,0],Integer]", "Callable[String,1,2]", "Callable[String,1,default]",
+		"Callable[[String, Callable], Integer]", "Callable[String, Optional[Callable]]", "Callable[[String], String]", "Callable[Integer]", "Callable[1,1]", "Callable[[], Integer]", "Callable[Unit]", "Callable[Unit,Unit]", "Callable[2,2]", "Callable[Unit,1,1]", "Callable[Unit,2,2]",
+		"String[Integer]", "String[Integer[1,5]]", "String[Integer[0]]", "String[Integer[default,5]]", "String[0]", "String[0, 5]",
+		"Iterator[String]", "Runtime['go','y']", "Runtime['go']", "Like[String,'x']", "Like[Integer,'y']", "Init[String]", "Init[Integer,1]", "Init[Integer,2]",
+		"Timespan['0-00:00:01']", "Timespan[default, '0-00:00:05']", "Timestamp['2000-01-01']", "Timestamp[default, '2001-01-01']", "SemVer['1.x', '2.x']", "SemVer['>=1.0.0 <2.0.0']",
+		"URI['http://example.com']", "URI[{scheme => 'http'}]", "URI[{scheme => 'https'}]", "Collection[0]", "Collection[default, 5]", "Array[String, default, 5]", "Array[default, 5]",
+		"Hash[1]", "Hash[1, 5]", "Hash[String, Integer, 1]", "Integer[default, default]", "Float[default, 1.0]", "Float[1.0]", "Float[default, default]",
+		"Type[String['a']]", "Optional['']", "NotUndef[String['a']]", "Enum['a', 'B', true]", "Enum['a', 'b', true]", "Enum[['a','b']]", "Pattern['a']", "Pattern[Regexp[/a/]]", "Regexp['a']",
+		"Variant[[Integer,String]]", "Tuple[[Integer,String]]", "Tuple[[Integer,String], Integer[2,3]]", "Tuple[Integer, 1]", "Tuple[Integer, String, 1, default]", "Tuple[1, 5]", "Tuple[5]",
+		"Struct[{a=>Undef}]", "Struct[{a=>Any}]", "Struct[{Optional[a]=>Any}]", "Struct[{NotUndef[a]=>Any}]", "Struct[{a=>NotUndef}]", "Struct[{Optional[a]=>NotUndef}]",
 	}
 	r := make([]*T, len(texts))
 	for i, s := range texts {
@@ -488,6 +500,8 @@ func (p *pool) add(d *V, family string) *item {
 		return nil
 	}
 	p.seen[id] = true
+	f0, e0 := guarded(func() { it.keyB0 = string(px.ToKey(it.b)) })
+	it.keyB0OK = f0 == "" && e0 == ""
 	force(it.b)
 	p.items = append(p.items, it)
 	p.res.Count("pool." + family)
